@@ -257,6 +257,62 @@ def flows_unchanged(fn, e, source_callee):
     return False
 
 
+def lossy_step(fn, e, source_callee):
+    """Companion of flows_unchanged: on the way from the result of `source_callee` to expression e, an integer conversion (explicit, implicit,
+    or through the declared type of a local) to a type that cannot hold every value of the getter's return type — narrower, or of the same
+    width with the other signedness.  Returns a description of the first such step, or None."""
+    x = expand(fn, e)
+    seen = []
+    guard = 0
+    # an integer sink sets the width that arrives anyway: conversions to anything at least that wide lose nothing more (modular arithmetic);
+    # for any other sink (text through std::to_string, a wider field) every step has to hold every value of the source
+    sink = (e.get("t") or {}) if isinstance(e, dict) else {}
+    sink_bits = sink.get("bits") if sink.get("k") in ("int", "enum") else None
+    while isinstance(x, dict) and guard < 24:
+        guard += 1
+        k = x.get("k")
+        if k == "cast":
+            if x.get("ck") in ("IntegralCast", "BooleanToSignedIntegral", "IntegralToBoolean"):
+                seen.append((x.get("t") or {}, x.get("loc")))
+            x = x["e"]
+            continue
+        if k == "paren":
+            x = x.get("e")
+            continue
+        if k == "call":
+            nm = callee_name(x)
+            if nm == source_callee:
+                st = x.get("t") or {}
+                if st.get("k") not in ("int", "enum", "bool") or not st.get("bits"):
+                    return None
+                for t, loc in seen:
+                    if t.get("k") not in ("int", "bool") or not t.get("bits"):
+                        continue
+                    tb = 1 if t.get("k") == "bool" else t["bits"]
+                    fits = tb > st["bits"] if (t.get("sg") and not st.get("sg")) else (tb >= st["bits"] and bool(t.get("sg")) == bool(st.get("sg")))
+                    if not fits and sink_bits is not None and tb >= sink_bits:
+                        fits = True
+                    if not fits:
+                        return "the %d-bit %s result of %s passes through `%s` on its way" % (
+                            st["bits"], "signed" if st.get("sg") else "unsigned", source_callee.split("::")[-1], t.get("s"))
+                return None
+            if nm in PASS_THROUGH_CALLS and len(x.get("args", [])) == 1:
+                x = x["args"][0]
+                continue
+            if (x.get("callee") or {}).get("nm") in ("operator basic_string_view", "operator->", "operator*", "get") and "obj" in x:
+                x = x["obj"]
+                continue
+            return None
+        if k == "construct" and len(x.get("args", [])) == 1:
+            x = x["args"][0]
+            continue
+        if k == "stdinitlist":
+            x = x.get("e")
+            continue
+        return None
+    return None
+
+
 COPY_CALLS = {"memcpy", "memmove", "std::memcpy", "std::memmove", "std::copy_n", "std::copy"}
 
 
